@@ -12,3 +12,5 @@ open StarsimModel.C02
 #print axioms C02_search_frame
 #print axioms C02_search_frame_static
 #print axioms C02_search_rename_counterexample
+#print axioms C02_streams_frame
+#print axioms C02_streams_frame_front
